@@ -468,7 +468,8 @@ func c20(c *core.Ctx) {
 		})
 		c.Require("poisoned_buffer_cases")
 	}
-	c.Require("returned_datagram_overwritten_then_reencoded", "encode_pure", "protect_pure", "amended_decoded_encoded_x41", "decoded_and_scribbled_own-encoding", "decoded_and_scribbled_unprotected", "decoded_and_scribbled_mutated")
+	freshFamily(c, "C20", "fresh-process", c.N(2, 40))
+	c.Require("fresh_process_cases_ok", "returned_datagram_overwritten_then_reencoded", "encode_pure", "protect_pure", "amended_decoded_encoded_x41", "decoded_and_scribbled_own-encoding", "decoded_and_scribbled_unprotected", "decoded_and_scribbled_mutated")
 }
 
 var _ = security.GenerateRandomUint8
